@@ -10,7 +10,13 @@ for the verdict; (3) recognises the known findings
       (`cross = false`) < optimum;
   K2  FittedAffine stopped at the reference start with query letters left;
   K3  FittedAffine consumed the query, the total is below the no-adjacent-gaps optimum for its
-      end, and the model of the unchanged algorithm predicts exactly this total and this end.
+      end, and it *is* the optimum, for that end, of the class the fill explores — alignments
+      that end with a letter pair and start with a letter pair (or, from reference position 0,
+      with a gap in the reference), `Spec.FittedRestricted`; the yardstick is the match-layer
+      value of the last column of row `e` of the model's table, proved to be that optimum
+      (`fittedRestricted_yardstick`).  The traceback no longer takes part in K3 (after the
+      repair of K5 it is layer-aware; totals telescope to the table value either way).
+      Tag `k3-model-end`: the model's own run ends at the same row.
 Core only.
 -/
 import Biogo.Drive.AffCommon
@@ -74,8 +80,8 @@ def handleCase (c : Case) (obs : String) : Verdict :=
         if some tot == all then fin (tags ++ ["consumes"] ++ (if na == all then [] else ["noadj<opt"]))
         else if some tot == na ∧ vgt all na then
           known "K1" s!"total={tot} = optimum for end {e} without adjacent opposite gaps < optimum={showV all}" (tags ++ ["k1"])
-        else if vgt na (some tot) ∧ modelTot == some tot ∧ modelEnd == some e then
-          known "K3" s!"total={tot} for end {e} below noadj-optimum={showV na} (optimum={showV all}); the model of the algorithm predicts it" (tags ++ ["k3"])
+        else if vgt na (some tot) ∧ ((fitTable S c.gapOpen r q).at e C).d == some tot then
+          known "K3" s!"total={tot} for end {e} below noadj-optimum={showV na} (optimum={showV all}); it is the optimum over the alignments ending with a letter pair and not starting with a gap after a free reference prefix" (tags ++ ["k3"] ++ (if modelTot == some tot ∧ modelEnd == some e then ["k3-model-end"] else []))
         else fail s!"total={tot} end={e} optimum={showV all} noadj-optimum={showV na}" tags
   | .err code => fail s!"no alignment returned: {code}" base
   | .panic => fail "panic on a legal input" base
